@@ -116,13 +116,19 @@ func (r *rlocker) Unlock() { (*RWMutex)(r).RUnlock() }
 type Once struct {
 	m    Mutex
 	done bool
+	st   vs.OnceState
 }
 
 func (o *Once) Do(f func()) {
+	if o.done {
+		// the fast path of the real Once: a flag is loaded, nothing is published
+		vs.OnceObserve(&o.st)
+		return
+	}
 	o.m.Lock()
 	defer o.m.Unlock()
 	if !o.done {
-		defer func() { o.done = true }()
+		defer func() { o.done = true; vs.OncePublish(&o.st) }()
 		f()
 	}
 }
